@@ -90,7 +90,8 @@ def install(it):
 
         @B('tier')
         def _tier(it, a, kw):
-            return 'quick'
+            import os
+            return os.environ.get('VERIF_TIER_EFFECTIVE', 'quick')
 
         @B('fresh_int')
         def _fresh_int(it, a, kw):
